@@ -454,6 +454,9 @@ func init() {
 					{"small", 2, -1, 0, false, true, "started", prop, false},
 					{"small", 1, -1, 0, false, true, "fresh", prop, false},
 					{"big", 2, 65, 2, false, false, "fresh", prop, false},
+					// preemption-bounded (not delay-bounded, see below): a Next in progress while the
+					// context is cancelled and the pipeline winds down (finding F12)
+					{"small", 1, 1, 1, true, false, "fresh", prop, false},
 					// reads that fail because the query was terminated (context-aware store)
 					{"small", 2, 1, 1, false, false, "fresh", prop, true},
 					{"small", 1, 0, 0, true, false, "started", prop, true},
@@ -500,6 +503,9 @@ func init() {
 				}
 				if p.fixture == "manyfiles" {
 					s.Sched = 1
+				}
+				if tier == "quick" && p.fixture == "small" && p.conc == 1 && p.takes == 1 && p.closer == 1 && p.cancel && !p.ctxReads {
+					s.DelayBound, s.Sched = false, 1
 				}
 				if tier == "quick" && prop == "C21" && p.faults && p.conc > 1 {
 					// the follow-up query makes C21 executions twice as long: one delay with two
